@@ -134,7 +134,7 @@ func (o *diffOracle) OnWrite(s *Sim, w *Write) {
 		live := s.Store.Peek(gk)
 		fresh := scratch.Store.Peek(gk)
 		if d := o.differ(live, fresh, strategy.Matches); d != "" {
-			s.Violate(prop, "H1-history-independent", "H1/"+fam, w.Seq, "step %d reported routed but %s differs from a fresh run of the same provider on the user's original objects for this step alone: %s", k, gk, d)
+			s.Violate(prop, "H1-history-independent", "H1/"+fam+o.tr.staleRouteRead(s), w.Seq, "step %d reported routed but %s differs from a fresh run of the same provider on the user's original objects for this step alone: %s", k, gk, d)
 		}
 	}
 	// I3 / frame: the user's own objects other than the managed ones are never modified
